@@ -336,15 +336,17 @@ main(int argc, char **argv) {
   while (flag != EOF) {
     switch (flag) {
     case 'I':
+      // Resolve the directory the way the operating system does: a ".."
+      // that follows a symbolic link must not be collapsed textually.
       fn = Filename::from_os_specific(optarg);
-      fn.make_absolute();
+      fn.make_canonical();
       parser._quote_include_path.append_directory(fn);
       parser._quote_include_kind.push_back(CPPFile::S_alternate);
       break;
 
     case 'S':
       fn = Filename::from_os_specific(optarg);
-      fn.make_absolute();
+      fn.make_canonical();
       parser._angle_include_path.append_directory(fn);
       parser._quote_include_path.append_directory(fn);
       parser._quote_include_kind.push_back(CPPFile::S_system);
@@ -379,7 +381,7 @@ main(int argc, char **argv) {
 
     case CO_srcdir:
       source_file_directory = Filename::from_os_specific(optarg);
-      source_file_directory.make_absolute();
+      source_file_directory.make_canonical();
       break;
 
     case CO_module:
